@@ -385,6 +385,31 @@ func checkRawMapChain(res *Result, p *Pub, rule string) {
 						res.ok(rule, fname(g), p.pos(ci.Instr), "no request body (programmatic Send): nil raw map")
 						continue
 					}
+					// a merge of the results of an expanded helper's exits: at this call only the
+					// exits with a nil error remain; they must all yield the same variable
+					if _, isPhi := unwrap(a).(*ssa.Phi); isPhi {
+						if ci2, ok := ci.Instr.(ssa.Instruction); ok {
+							vals := computeFacts(g).feasibleAt(ci2, unwrap(a), 0)
+							var al *ssa.Alloc
+							same := len(vals) > 0
+							for _, fv := range vals {
+								ld, ok := unwrap(fv).(*ssa.UnOp)
+								if !ok || ld.Op != token.MUL {
+									same = false
+									break
+								}
+								x, ok := ld.X.(*ssa.Alloc)
+								if !ok || (al != nil && al != x) {
+									same = false
+									break
+								}
+								al = x
+							}
+							if same {
+								a = vals[0]
+							}
+						}
+					}
 					ok, why := onlyUnmarshalWrites(a)
 					origins++
 					res.check(ok, rule, fname(g), p.pos(ci.Instr), "the raw map handed to "+fname(wk.f)+" is the decoded request body itself", why)
